@@ -37,8 +37,13 @@ def discover(modfile):
     return out
 
 
+TIER = ["quick"]
+
+
 def _env():
     env = dict(os.environ)
+    if TIER[0] == "thorough":
+        env.setdefault("PV_K3_MAXLEN", "2")  # two-character symbolic names (measured: <= 300 s per condition)
     pp = env.get("PYTHONPATH", "")
     env["PYTHONPATH"] = (pp + os.pathsep if pp else "") + ROOT
     env["PYTHONWARNINGS"] = "ignore"
@@ -99,7 +104,8 @@ def replay_call(modname, call):
 def run_harnesses(group, tier, seed, *, timeout_s=None, only=None):
     modfile = os.path.join(HERE, f"{group}.py")
     modname = f"pv.ch.{group}"
-    timeout_s = timeout_s or (40 if tier == "quick" else 240)
+    timeout_s = timeout_s or (40 if tier == "quick" else 600)
+    TIER[0] = tier
     conds = discover(modfile)
     if only:
         conds = [c for c in conds if only in c[0]]
